@@ -47,6 +47,7 @@ class ArffAttrReader(Filter[Iterable[str], Iterable[Tuple[str,Callable]]]):
         self._is_dense = is_dense
         self._r_space  = re.compile("(\s+)")
         self._r_comma  = re.compile("(,)")
+        self._r_escape = re.compile(r"\\(.)")
 
     def filter(self, lines: Iterable[str]) -> Iterable[Tuple[str,Callable]]:
 
@@ -85,7 +86,7 @@ class ArffAttrReader(Filter[Iterable[str], Iterable[Tuple[str,Callable]]]):
                     while item.rstrip()[-1] != q or item.rstrip()[-2]=="\\":
                         item += next(items)
 
-                    item = item.strip().rstrip()[1:-1].replace("\\",'')
+                    item = self._r_escape.sub(r"\1", item.strip().rstrip()[1:-1])
                 else:
                     item = item.strip()
 
@@ -161,6 +162,7 @@ class ArffLineReader(Filter[str, Sequence[str]]):
         self._quotes         = '"'+"'"
         self._dialect        = dict(skipinitialspace=True,escapechar="\\",doublequote=False)
         self._quotechar      = None
+        self._r_escape       = re.compile(r"\\(.)")
 
         if self._is_dense:
             self._set_filter(self._dense)
@@ -265,7 +267,7 @@ class ArffLineReader(Filter[str, Sequence[str]]):
                     item += "," + d_line.popleft()
                 item = item.strip()[1:-1]
 
-            parsed.append(item.replace('\\',''))
+            parsed.append(self._r_escape.sub(r"\1",item))
 
         if len(parsed) != self._n_columns:
             raise CobaException(f"We were unable to parse a line in a way that matched the expected attributes.")
